@@ -685,6 +685,31 @@ fn rows_blackboard<S: Service + 'static>() -> Vec<Row<S>> {
     pair_row!(rows, "no requirement at all", Ok(()), |b| b.blackboard_creator::<u64>().add::<u64>(0, 0).max_readers(2), b.blackboard_opener::<u64>());
     pair_row!(rows, "key type: creator u64, opener u32", Err("IncompatibleKeys"), |b| b.blackboard_creator::<u64>().add::<u64>(0, 0), b.blackboard_opener::<u32>());
     pair_row!(rows, "key type: creator u64, opener i64", Err("IncompatibleKeys"), |b| b.blackboard_creator::<u64>().add::<u64>(0, 0), b.blackboard_opener::<i64>());
+    // a creation that fails half way (the same key twice: the static config is written before the
+    // entries are set up) returns the documented error and leaves nothing of the service behind
+    rows.push((
+        "failed create: the same key is provided twice".to_string(),
+        Box::new(|w: &World<S>| {
+            let site = "table: failed create: the same key is provided twice".to_string();
+            let before = if w.cfg.variant.is_ipc() { w.domain.canon(&w.service_artifacts()) } else { Vec::new() };
+            let r = w.nodes[0].service_builder(&w.name).blackboard_creator::<u64>().add::<u64>(0, 0).add::<u64>(0, 1).create().map(|_| ()).map_err(dbg);
+            ensure!(r.is_err(), "c06-table", site, "a creator with the same key twice returned {:?}", r);
+            let exists = S::does_exist(&w.name, &w.domain.config, w.pattern());
+            ensure!(exists == Ok(false), "c06-failed-create-leftover", site, "the create failed with {:?} but does_exist = {:?}", r, exists);
+            if w.cfg.variant.is_ipc() {
+                let after = w.domain.canon(&w.service_artifacts());
+                ensure!(after == before, "c06-failed-create-leftover", site, "the failed create left {:?} (before: {:?})", after, before);
+            }
+            // the name is free: a proper creation and an open work
+            let h = w.nodes[0].service_builder(&w.name).blackboard_creator::<u64>().add::<u64>(0, 0).create().map_err(|e| Fail::new("c06-failed-create-leftover", site.clone(), format!("create after the failed create: {e:?}")))?;
+            let o = w.nodes[1].service_builder(&w.name).blackboard_opener::<u64>().open().map_err(|e| Fail::new("c06-failed-create-leftover", site.clone(), format!("open after the failed create: {e:?}")))?;
+            drop(o);
+            drop(h);
+            let exists = S::does_exist(&w.name, &w.domain.config, w.pattern());
+            ensure!(exists == Ok(false), "c06-leftover", site, "does_exist = {:?} after the last handle was dropped", exists);
+            Ok(())
+        }),
+    ));
     rows
 }
 
